@@ -18,7 +18,8 @@ META = {
             "omitted/exact; every logical method on label operands up to arity 3; and to_qubo/to_quso/to_pubo(2)/to_puso(2) with a symbolic penalty on every model over 4 variables with one (quick) / "
             "<=2 (thorough) terms of which one has degree>=3, as PUBO/PUSO/PCBO/PCSO. For c in {1, 2.5, 0.75, 2}: subs(symbol->c) of the symbolic build equals the numeric build in type, coefficients "
             "(1e-9) and recorded constraints, and subs leaves the symbolic original unchanged.",
-    "note": "Bounded as listed. Only the weight is symbolic (as the statement says), never the objective or the constraint polynomial.",
+    "note": "Bounded as listed. The main parts make only the weight symbolic (as the statement says); one slice also puts the symbol inside the objective and the constraint polynomial, "
+            "as a bare symbol and as w - 3, 2w, -w (recorded constraints must be substituted too).",
 }
 
 CS = (1, 2.5, 0.75, 2)      # 2: the weight at which lam / 2 == 1 (scalar shortcuts)
